@@ -136,6 +136,19 @@ fn run_case(c: &Case, st: &mut Stats, want: bool) -> CaseOut {
     co
 }
 
+/// does the model transfer at least one pixel (used to bias the sampling towards non-trivial cases)
+fn transfers(c: &Case) -> bool {
+    for qy in 0..c.dh {
+        for qx in 0..c.dw {
+            let (px, py) = (c.r.0 + (qx - c.dst.0), c.r.1 + (qy - c.dst.1));
+            if px >= c.r.0 && px < c.r.2 && py >= c.r.1 && py < c.r.3 && px >= 0 && px < c.sw && py >= 0 && py < c.sh {
+                return true;
+            }
+        }
+    }
+    false
+}
+
 // the small space: sizes 0..=3, src_rect corners in -2..=5, dst in -4..=5
 const SIZES: u64 = 4;
 const RC: u64 = 8;
@@ -172,7 +185,16 @@ pub fn run(ctx: &Ctx) -> Outcome {
         let n = ctx.n(400_000, 4_000_000);
         run_cases(ctx, &mut out, SubSpec { name: "small_space_sampled", cases: n, exhaustive: false, max_secs: 40. }, |i, want, st| {
             let mut rng = ctx.rng("small_space_sampled", i);
-            let c = small_case(rng.below(total));
+            // 3 of 4 samples are redrawn until the model transfers a pixel (most of the space transfers nothing)
+            let mut c = small_case(rng.below(total));
+            if i % 4 != 0 {
+                for _ in 0..200 {
+                    if transfers(&c) {
+                        break;
+                    }
+                    c = small_case(rng.below(total));
+                }
+            }
             run_case(&c, st, want)
         });
     } else {
@@ -183,16 +205,18 @@ pub fn run(ctx: &Ctx) -> Outcome {
         let (sw, sh, dw, dh) = (rng.int(0, 12) as i32, rng.int(0, 12) as i32, rng.int(0, 12) as i32, rng.int(0, 12) as i32);
         let far = rng.chance(0.1);
         let lim = if far { 1_000_000 } else { 16 };
-        let x0 = rng.int(-lim, lim) as i32;
-        let y0 = rng.int(-lim, lim) as i32;
+        let near = !far && rng.chance(0.8);
+        let x0 = if near { rng.int(-3, sw as i64) as i32 } else { rng.int(-lim, lim) as i32 };
+        let y0 = if near { rng.int(-3, sh as i64) as i32 } else { rng.int(-lim, lim) as i32 };
         let r = if rng.chance(0.85) { (x0, y0, x0 + rng.int(0, 14) as i32, y0 + rng.int(0, 14) as i32) } else { (x0, y0, rng.int(-lim, lim) as i32, rng.int(-lim, lim) as i32) };
+        let dst = if near { (rng.int(-6, dw as i64 + 1) as i32, rng.int(-6, dh as i64 + 1) as i32) } else { (rng.int(-lim, lim) as i32, rng.int(-lim, lim) as i32) };
         let c = Case {
             sw,
             sh,
             dw,
             dh,
             r,
-            dst: (rng.int(-lim, lim) as i32, rng.int(-lim, lim) as i32),
+            dst,
             entry: rng.below(3) as u8,
             mode: rng.below(28) as usize,
             alpha: *rng.pick(&[0.0f32, 1.0, 0.5, 0.3, 2.0, -1.0, f32::NAN, 1.0 / 255.]),
